@@ -9,7 +9,7 @@ Definition tunit_label (kelvin : bool) : option string := if kelvin then Some "K
 
 (* a state whose seven labels name the representation (rp, rl, rm, kelvin?) *)
 Definition mk_state (rp : prep) (rl : lrep) (rm : mrep) (tk : bool) (T : R)
-    (a : adsorbate RNum) (m : material RNum) (cp cl : list R) (cb : list bool) (li pi : option cache) : iso RNum :=
+    (a : adsorbate RNum) (m : material RNum) (cp cl : list R) (cb : list bool) (li pi : option (cache RNum)) : iso RNum :=
   mkIso RNum (p_mode rp) (p_unit rp) (l_basis rl) (l_unit rl) (m_basis rm) (m_unit rm) (tunit_label tk) T a m cp cl cb li pi.
 
 (* the adsorbate at the isotherm temperature, with every constant available and consistent densities *)
